@@ -123,9 +123,17 @@ Proof.
     eexists. split; [exact P'|]. intros l Hl. rewrite (spec_idx l Hl). apply E. now apply lab_idx_lt.
   - intros u' P X xi TX. now apply (prefix_restrict _ _ _ _ _ _ RF o Hr Ho w u' P).
 Qed.
-Theorem spec_fixpoint (R : Type) (o : sr_ops R) : sr_ring o -> forall w x : env (R:=R),
-  fixpoint o G' w x -> fixpoint o G w x.
-Proof. intros Hr w x. apply (fixpoint_restrict _ _ _ _ _ _ spec_refines o Hr). Qed.
+Theorem spec_fixpoint (R : Type) (o : sr_ops R) : sr_ring o -> forall w : env (R:=R),
+  (forall x : env (R:=R), fixpoint o G' w x -> fixpoint o G w x)
+  /\ (forall x : env (R:=R), fixpoint o G w x ->
+        exists x' : env (R:=R), fixpoint o G' w x'
+          /\ forall l, In l (fh_elabels g) -> x' (lab_idx (fh_elabels g') l) = x (lab_idx (fh_elabels g) l)).
+Proof.
+  intros Hr w. pose proof spec_refines as RF. split.
+  - intro x. apply (fixpoint_restrict _ _ _ _ _ _ RF o Hr).
+  - intros x F. destruct (fixpoint_extend _ _ _ _ _ _ RF o Hr w x F) as [F' E].
+    eexists. split; [exact F'|]. intros l Hl. rewrite (spec_idx l Hl). apply E. now apply lab_idx_lt.
+Qed.
 
 End FromSpec.
 
@@ -232,7 +240,11 @@ Theorem sum_product_fixpoints_hrg doms m g orc g' :
   wf_grammar (to_sp_grammar doms g) = true -> ids_are_positions g ->
   orc_ok g (orc m) -> factorize_hrg_model m g orc = Ok g' ->
   let G := to_sp_grammar doms g in let G' := to_sp_grammar doms g' in
-  (forall (R : Type) (o : sr_ops R), sr_ring o -> forall w x : env (R:=R), fixpoint o G' w x -> fixpoint o G w x)
+  (forall (R : Type) (o : sr_ops R), sr_ring o -> forall w : env (R:=R),
+     (forall x : env (R:=R), fixpoint o G' w x -> fixpoint o G w x)
+     /\ (forall x : env (R:=R), fixpoint o G w x ->
+           exists x' : env (R:=R), fixpoint o G' w x'
+             /\ forall l, In l (fh_elabels g) -> x' (lab_idx (fh_elabels g') l) = x (lab_idx (fh_elabels g) l)))
   /\ forall (R : Type) (o : sr_ops R), sr_ring o -> sr_ordered o -> forall w : env (R:=R),
        (forall u : env (R:=R), SP_mono.env_le o (step o G w u) u ->
           exists u' : env (R:=R), SP_mono.env_le o (step o G' w u') u'
@@ -242,6 +254,6 @@ Theorem sum_product_fixpoints_hrg doms m g orc g' :
 Proof.
   intros W I O H. destruct (factorize_hrg_spec g (orc m) g' (wf_rules doms g W I) O H) as (cs & SP).
   split.
-  - intros R o Hr w x. exact (spec_fixpoint doms g g' cs SP W I R o Hr w x).
+  - intros R o Hr w. exact (spec_fixpoint doms g g' cs SP W I R o Hr w).
   - intros R o Hr Ho w. exact (spec_prefix doms g g' cs SP W I R o Hr Ho w).
 Qed.
